@@ -353,7 +353,7 @@ def gate(R):
     q2 = 'proxy.ProxyParser.parse'
     g2 = R.cfg(q2, 'proxy.ProxyParser', injected=frozenset({'parser.ParseError'}))
     rd2 = ReachingDefs(g2)
-    ys = [y for y in g2.yields() if isinstance(y.stmt, ast.Expr)]
+    ys = [y for y in g2.yields() if isinstance(y.stmt, ast.Expr) and y.stmt.value is y.ast]       # `yield <response>` statements
     need(len(ys) == 1, 'ProxyParser.parse: response yield not found')
     y = ys[0]
     rvar = U(y.ast.value)
